@@ -21,7 +21,7 @@ theorem lookup_merge (m : Nat) (ins : List (AbsSeg × List Nat)) (i d : Nat) (s 
     lookup (merge m ins).2 i d =
       if d < s.docs.length then
         some (if drops.contains d then none
-              else some (((ins.take i).map (fun p => live p.2 p.1.docs.length)).sum + live drops d))
+              else some (((ins.take i).map (fun p => liveCount p.2 p.1.docs.length)).sum + liveCount drops d))
       else none := by
   simp only [lookup, merge_maps, getElem?_remapAll, List.getElem?_map, hi, Option.map_some,
     Option.bind_some, getElem?_remapList, ← List.map_take, List.map_map, Nat.zero_add]
@@ -53,7 +53,7 @@ theorem C03_count (m : Nat) (ins : List (AbsSeg × List Nat))
   congr 1
   apply List.map_congr_left
   intro p hp
-  exact live_valid _ _ (h p hp).1 (h p hp).2
+  exact liveCount_valid _ _ (h p hp).1 (h p hp).2
 
 /-- the content of every surviving old document is found at exactly its reported new number -/
 theorem C03_content (m : Nat) (ins : List (AbsSeg × List Nat)) (i d k : Nat) (s : AbsSeg)
@@ -70,15 +70,15 @@ theorem C03_content (m : Nat) (ins : List (AbsSeg × List Nat)) (i d k : Nat) (s
     · next hnd =>
       simp only [Option.some.injEq] at hk
       subst hk
-      have hget : (survivors s drops)[live drops d]? = s.docs[d]? := by
+      have hget : (survivors s drops)[liveCount drops d]? = s.docs[d]? := by
         have := getElem?_keepP (fun i => !drops.contains i) 0 s.docs d (by simpa using hnd)
         rwa [← List.range_eq_range'] at this
-      have hlt : live drops d < (survivors s drops).length := by
-        have h2 : (survivors s drops)[live drops d]? = some s.docs[d] := by
+      have hlt : liveCount drops d < (survivors s drops).length := by
+        have h2 : (survivors s drops)[liveCount drops d]? = some s.docs[d] := by
           rw [hget, List.getElem?_eq_getElem hd]
         exact (List.getElem?_eq_some_iff.1 h2).1
       have := getElem?_flatMap_block (fun p : AbsSeg × List Nat => survivors p.1 p.2) ins i
-        (live drops d) (s, drops) hi hlt
+        (liveCount drops d) (s, drops) hi hlt
       simp only [length_survivors] at this
       rw [merge_docs, this, hget]
   · exact absurd hk (by simp)
